@@ -13,11 +13,19 @@ INDEX_SELF = {"slice", "array", "alloc::vec::Vec", "alloc::collections::vec_dequ
               "alloc::collections::btree::map::BTreeMap", "std::collections::hash::map::HashMap", "hashbrown::map::HashMap"}
 UNLOCKERS = {"lock::Lock", "lock::RefLock", "lock::OnceLock"}
 CELL_MUTATORS = ("core::cell::Cell::set", "core::cell::Cell::replace", "core::cell::Cell::take", "core::cell::Cell::swap",
+                 "core::cell::Cell::update", "core::cell::Cell::as_array_of_cells",
+                 "core::cell::Cell::as_slice_of_cells", "core::cell::RefCell::borrow_mut_unguarded", "core::cell::RefCell::try_borrow_unguarded",
+                 "core::cell::RefCell::update", "core::cell::once::OnceCell::get_mut_or_init", "core::cell::once::OnceCell::get_mut_or_try_init",
                  "core::cell::RefCell::borrow_mut", "core::cell::RefCell::try_borrow_mut", "core::cell::RefCell::replace",
                  "core::cell::RefCell::take", "core::cell::RefCell::swap", "core::cell::RefCell::replace_with",
                  "core::cell::once::OnceCell::set", "core::cell::once::OnceCell::get_or_init",
                  "core::cell::once::OnceCell::take", "core::cell::once::OnceCell::try_insert",
                  "core::cell::once::OnceCell::get_or_try_init")
+CELL_READERS = {"core::cell::Cell::get", "core::cell::Cell::as_ptr", "core::cell::Cell::new", "core::cell::Cell::into_inner",
+                "core::cell::Cell::get_mut", "core::cell::RefCell::borrow", "core::cell::RefCell::try_borrow",
+                "core::cell::RefCell::as_ptr", "core::cell::RefCell::new", "core::cell::RefCell::into_inner",
+                "core::cell::RefCell::get_mut", "core::cell::once::OnceCell::get", "core::cell::once::OnceCell::new",
+                "core::cell::once::OnceCell::into_inner", "core::cell::once::OnceCell::get_mut"}
 TAKE_EXCEPTIONS = {"lock::Lock::take": "stores Default::default(), which cannot produce a branded pointer (lifetime parametricity)",
                    "lock::RefLock::take": "stores Default::default(), which cannot produce a branded pointer (lifetime parametricity)"}
 
@@ -198,11 +206,17 @@ def lock_mutators(chk, prog, c):
     for f in prog.f["fns"]:
         if f["kind"] not in ("Fn", "AssocFn") or not f["span"]["f"].endswith("lock.rs"):
             continue
-        hits = [e for e in prog.calls_from(f["n"]) if e.callee in CELL_MUTATORS]
+        def is_mut(c):
+            # fail closed: every method of the std cell types that is not a reviewed reader counts as a mutator
+            if c in CELL_MUTATORS:
+                return True
+            return bool(c) and c.startswith(("core::cell::Cell::", "core::cell::RefCell::", "core::cell::once::OnceCell::")) \
+                and c not in CELL_READERS
+        hits = [e for e in prog.calls_from(f["n"]) if is_mut(e.callee)]
         # closures of the function too
         for d in prog.seed_n:
             if d.startswith(f["n"] + "::{closure"):
-                hits += [e for e in prog.calls_from(d) if e.callee in CELL_MUTATORS]
+                hits += [e for e in prog.calls_from(d) if is_mut(e.callee)]
         if not hits:
             continue
         n += 1
